@@ -139,6 +139,15 @@ MUTANTS = [
     # ---- C18
     ('C18', 'premade_lib.py', "sorted_values, quantiles, method='nearest')", "sorted_values, quantiles, interpolation='nearest')",
      'V5', 'revert of fix F6'),
+    # ---- C19
+    ('C19', 'kronecker_factored_lattice_lib.py', '      grad1 = tf.cast(tf.equal(num_zeros, 1), tf.float32) * prod',
+     '      grad1 = tf.cast(tf.equal(num_zeros, 2), tf.float32) * prod', 'G3', 'single-zero branch tests the wrong count'),
+    ('C19', 'kronecker_factored_lattice_lib.py', '      return tf.expand_dims(dy, axis=axis) * (grad0 + grad1)',
+     '      return tf.expand_dims(dy, axis=-1) * (grad0 + grad1)', 'G1', 'upstream gradient expanded on another axis'),
+    ('C19', 'kronecker_factored_lattice_lib.py', '      grad0 = tf.math.divide_no_nan(tf.expand_dims(fwd, axis=axis), t)',
+     '      grad0 = tf.math.divide_no_nan(tf.expand_dims(fwd, axis=axis), t + is_zero)', None, 'N: dividing by t + is_zero gives the same gradient in all six zero patterns'),
+    ('C19', 'lattice_lib.py', '    return tf.matmul(interpolation_weights, kernel)',
+     '    return tf.matmul(interpolation_weights, tf.tanh(kernel))', 'G2', 'kernel squashed before the contraction'),
     # ---- C20
     ('C20', 'linear_layer.py', '      lower_bounds = [val if val is not None else -np.inf', '      lower_bounds = [val if val is not None else np.inf',
      'P2', 'missing lower bounds filled with +inf'),
